@@ -245,8 +245,10 @@ type c19hit struct {
 }
 
 // the clients of one wave come from different addresses (all of the same client group: no ip marker is configured)
+// (the marker file puts all of 10.1.0.0/16 into one group; the addresses are spread over several /24 — with ECS
+// enabled they differ in what is sent upstream, the group and therefore the entry and its refresh are one)
 func c19remote(i int) netip.AddrPort {
-	return netip.AddrPortFrom(netip.AddrFrom4([4]byte{10, 1, byte(i / 250), byte(1 + i%250)}), uint16(10000+i))
+	return netip.AddrPortFrom(netip.AddrFrom4([4]byte{10, 1, byte(i % 7), byte(1 + i%250)}), uint16(10000+i))
 }
 
 func c19query(r *router.VerifRouter, nonce int64, id uint16) c19hit {
